@@ -77,3 +77,10 @@ Theorem C18_detects_changed_availabilityStartTime :
   forall f a v, m_live f = true -> m_prev_ast f = Some a -> v <> a -> In MAstChanged (manifest_errors (change_ast f v)).
 Proof. exact detect_ast_change. Qed.
 Print Assumptions C18_detects_changed_availabilityStartTime.
+
+(* the tolerance the validator grants is never negative, so C18_no_false_positive applies to it *)
+Theorem C18_tolerance_nonnegative :
+  forall ts n d idx a, 0 <= ts -> 0 < n -> 0 < d ->
+    0 <= tol_template ts n d idx a /\ 0 <= tol_timeline ts n d a.
+Proof. intros ts n d idx a Ht Hn Hd. split; [apply tol_nonneg_template; assumption | apply tol_nonneg_timeline; assumption]. Qed.
+Print Assumptions C18_tolerance_nonnegative.
